@@ -28,8 +28,14 @@ Local Open Scope N_scope.
 Definition widen_floor (a t : N) : N := a * t / 1000000.
 Definition required (a t : N) : N := widen_floor a t - 1.
 
-(* sleep clock accuracy field of the CONNECT_IND -> worst case ppm (Core Vol 6 Part B 2.3.3.1) *)
-Definition sca_ppm (field : N) : N := nth (N.to_nat field) [500; 250; 150; 100; 75; 50; 30; 20] 0.
+(* sleep clock accuracy field of the CONNECT_IND -> worst case ppm of the announced range (Core Vol 6 Part B 2.3.3.1, SCA
+   field: 0: 251-500, 1: 151-250, 2: 101-150, 3: 76-100, 4: 51-75, 5: 31-50, 6: 21-30, 7: 0-20 ppm; window widening:
+   Vol 6 Part B 4.2.2 / 4.5.7).  A LITERAL of the specification, deliberately not read from the sources: the monitor's
+   `window` clause judges the implementation's windows against it (+ the configured own accuracy, - 1 us, the slack
+   proved for delta_time::ppm); GenLL.inaccuracy_ppm is what sleep_clock_accuracy() returns in the source at hand, and
+   Properties_C22 pins the two to each other. *)
+Definition core_sca_ppm : list N := [500; 250; 150; 100; 75; 50; 30; 20].
+Definition sca_ppm (field : N) : N := nth (N.to_nat field) core_sca_ppm 0.
 
 (* the number of used data channels of a channel map: the specification's notion of property C20 (ChanMapSpec.num_used:
    the bits 0..36 that are set) *)
@@ -99,12 +105,17 @@ Definition updates_of (pdus : list pdu) : list (N * N * N * N * N) :=
                                     then [(byte b 1, rd16 b 2, rd16 b 4, rd16 b 6, rd16 b 8)] else []
                      end) pdus.
 
-(* the delivered update whose parameters are the ones reported by connection_changed *)
-Fixpoint applied_update (l : list (N * N * N * N * N)) (d : details) : option (N * N * N * N * N) :=
+(* the delivered update that connection_changed reports, and the updates that are still outstanding after it.
+   connection_changed carries only interval / latency / timeout, so two delivered updates can look alike (same three
+   values, different transmit windows).  Control PDUs take effect in the order of their delivery and an update takes
+   effect once: the applied one is the OLDEST outstanding update with the reported values; it and everything delivered
+   before it are no longer outstanding.  (Before, the list was never consumed: a later update with the values of an
+   earlier, already applied one was judged against the earlier one's transmit window - a false alarm, docs/C22.md.) *)
+Fixpoint applied_update (l : list (N * N * N * N * N)) (d : details) : option ((N * N * N * N * N) * list (N * N * N * N * N)) :=
   match l with
   | [] => None
   | (wsz, woff, ivl, lat, tmo) :: r =>
-      if (ivl =? d_interval d) && (lat =? d_latency d) && (tmo =? d_timeout d) then Some (wsz, woff, ivl, lat, tmo)
+      if (ivl =? d_interval d) && (lat =? d_latency d) && (tmo =? d_timeout d) then Some ((wsz, woff, ivl, lat, tmo), r)
       else applied_update r d
   end.
 
@@ -151,11 +162,11 @@ Definition mstep22 (c : cfg) (m : mon22) (o : lop) (r : lout) : verdict * mon22 
                     then (Ok, mk22 (p_phase m) true (p_interval m) (p_latency m) (p_timeout m) (p_a m) (p_off m) (p_size m) (p_t m) (p_missed m) [])
                     else
                     match changed_details it, match changed_details it with Some d => applied_update upd d | None => None end with
-                    | Some d, Some (wsz, woff, ivl, lat, tmo) =>
+                    | Some d, Some ((wsz, woff, ivl, lat, tmo), rest) =>
                         (* the update's instant: old interval up to here, then the new transmit window *)
                         if negb (iv =? ivl * 1250) then (Bad 1, m)
                         else if search_k (p_a m) s e (woff * 1250) (wsz * 1250) (p_interval m) (N.to_nat (p_latency m + 1 + p_missed m))
-                        then (Ok, mk22 PBlind false (ivl * 1250) lat (tmo * 10000) (p_a m) (woff * 1250) (wsz * 1250) 0 0 upd)
+                        then (Ok, mk22 PBlind false (ivl * 1250) lat (tmo * 10000) (p_a m) (woff * 1250) (wsz * 1250) 0 0 rest)
                         else (Bad 2, m)
                     | Some d, None =>
                         (* a change that is not a connection update (encryption): timing as usual *)
@@ -186,8 +197,8 @@ Definition mstep22 (c : cfg) (m : mon22) (o : lop) (r : lout) : verdict * mon22 
                 else if match changed_details it with Some _ => true | None => false end then
                   (* the instant of an update fell on a missed event: the new parameters apply, the window is not judged *)
                   match match changed_details it with Some d => applied_update (p_upd m) d | None => None end with
-                  | Some (wsz, woff, ivl, lat, tmo) =>
-                      (Ok, mk22 PBlind false (ivl * 1250) lat (tmo * 10000) (p_a m) (woff * 1250) (wsz * 1250) 0 0 (p_upd m))
+                  | Some ((wsz, woff, ivl, lat, tmo), rest) =>
+                      (Ok, mk22 PBlind false (ivl * 1250) lat (tmo * 10000) (p_a m) (woff * 1250) (wsz * 1250) 0 0 rest)
                   | None => (Ok, mk22 PBlind false (p_interval m) (p_latency m) (p_timeout m) (p_a m) 0 0 0 0 (p_upd m))
                   end
                 else if lost then (Bad 4, m)
